@@ -108,6 +108,7 @@ func message(carrier int, tag byte, size int) (netty.Message, []byte) {
 // must appear contiguously on the wire.
 func ZZ_C09_Contiguous(q, carrierA, carrierB, sizeA int) {
 	tr := netty.NewZZTransport()
+	tr.KeepUnits()
 	pl := netty.NewPipeline()
 	pl.AddLast(parkReads{})
 	codecCarrier := carrierA
@@ -143,6 +144,42 @@ func ZZ_C09_Contiguous(q, carrierA, carrierB, sizeA int) {
 	vrt.Assert(sw.n == 0, "c09-no-exception")
 	log := tr.Log()
 	vrt.Assert(len(log) == len(wa)+len(wb), "c09-all-bytes-on-the-wire")
+	// every buffer handed to the transport is the next piece of message A or of message B, intact (this holds for
+	// every carrier, also for those whose messages are transmitted in several pieces - the known findings below are
+	// about where the pieces land, not about their content). Which message a piece belongs to is not observable, so
+	// all attributions are followed at once (branch-free: poss[pa] = "pa bytes of A and pos-pa bytes of B explain the
+	// first pos bytes of the wire").
+	if len(wa) <= 8 && len(wb) <= 8 {
+		var poss [10]byte
+		poss[0] = 1
+		pos := 0
+		for _, ln := range tr.Units() {
+			var next [10]byte
+			for pa := 0; pa <= len(wa) && pa <= pos; pa++ {
+				pb := pos - pa
+				if pb > len(wb) {
+					continue
+				}
+				if pa+ln <= len(wa) {
+					var d byte
+					for i := 0; i < ln; i++ {
+						d |= log[pos+i] ^ wa[pa+i]
+					}
+					next[pa+ln] |= poss[pa] & (1 - zzNZ(d))
+				}
+				if pb+ln <= len(wb) {
+					var d byte
+					for i := 0; i < ln; i++ {
+						d |= log[pos+i] ^ wb[pb+i]
+					}
+					next[pa] |= poss[pa] & (1 - zzNZ(d))
+				}
+			}
+			poss = next
+			pos += ln
+		}
+		vrt.Assert(pos == len(log) && poss[len(wa)] == 1, "c09-every-low-level-write-is-an-intact-piece-of-a-message")
+	}
 	ab := append(append([]byte(nil), wa...), wb...)
 	ba := append(append([]byte(nil), wb...), wa...)
 	// branch-free comparison (one solver query instead of a fork per byte)
@@ -154,3 +191,6 @@ func ZZ_C09_Contiguous(q, carrierA, carrierB, sizeA int) {
 	vrt.Assert(dAB == 0 || dBA == 0, "c09-messages-contiguous")
 	vrt.Reach("c09-done")
 }
+
+// zzNZ is 1 iff d != 0 (branch-free).
+func zzNZ(d byte) byte { return (d | (^d + 1)) >> 7 }
